@@ -83,6 +83,19 @@ def models():
                   eqs=[(V("x"), ("+", ("+", ("*", Pm("a"), V("x", -1)), num(0.3)), V("e"))),
                        (V("y"), ("+", ("+", ("*", num(0.4), V("y", -1)), ("*", num(0.5), V("x", -1))), V("u")))],
                   linear=True, guess={}))
+    # 10. a lead together with a log-variable that occurs at lag 2 (its lag sits in the state vector of the
+    #     first-order terminal condition)
+    M.append(dict(name="nl_lead_loglag2", vars=["x", "a"], log=["a"], shocks=["u", "e"], exog=[], params={"beta": 0.6, "abar": 1.5, "r1": 0.5, "r2": 0.2},
+                  eqs=[(V("x"), ("+", ("-", ("+", ("*", Pm("beta"), V("x", 1)), ("fn", "log", V("a"))), ("fn", "log", Pm("abar"))), V("u"))),
+                       (V("a"), ("*", ("*", ("*", ("^", Pm("abar"), ("-", ("-", num(1), Pm("r1")), Pm("r2"))), ("^", V("a", -1), Pm("r1"))), ("^", V("a", -2), Pm("r2"))), ("fn", "exp", V("e"))))],
+                  linear=False, guess={"x": 0.0, "a": 1.5}))
+    # 11. an equation whose left-hand side is bounded (x/(1+x^2) <= 1/2): a large shock leaves a period without
+    #     any solution while later periods are solvable again - a run either reports failure or satisfies the equations
+    M.append(dict(name="nl_bounded", vars=["k", "x"], log=[], shocks=["e"], exog=[], params={"rho": 0.3},
+                  eqs=[(V("k"), ("+", ("*", Pm("rho"), V("k", -1)), V("e"))),
+                       (("/", V("x"), ("+", num(1), ("*", V("x"), V("x")))), ("+", ("+", num(0.3), V("k")), ("*", num(0.1), ("-", V("x", -1), num(1.0 / 3.0)))))],
+                  linear=False, guess={"k": 0.0, "x": 1.0 / 3.0},
+                  extra_singles=[("u", "e", 2, 0.5), ("u", "e", 3, -0.5), ("u", "e", 1, 0.5)]))
     for md in M:
         md["measurement"] = True
     return M
@@ -135,6 +148,7 @@ def input_singles(md):
         out.append(("z", z, 0, 0.3))        # d == 0: the whole path
     for v in md["vars"]:
         out.append(("x", v, 1, 0.06))
+    out += list(md.get("extra_singles", ()))
     return out
 
 
@@ -228,6 +242,12 @@ def run_case(md, m, inputs, n_per, method, terminal, guess, res, fo_cache=None):
             if terminal == "first_order":
                 try:
                     db_c = fdb.copy()
+                    # lags deeper than one period reach back before a one-period frame: the frame databox holds the
+                    # frame's own span only, earlier periods come from the previous frames / the input
+                    for v in md["vars"]:
+                        pv = prev_path[v].copy()
+                        pv[f0 - lo: f1 + 1 - lo] = A[v][f0 - lo: f1 + 1 - lo]
+                        db_c[v] = ir.Series(start=START + lo, values=tuple(float(q) for q in pv[: f1 + 1 - lo]))
                     for s in md["shocks"]:
                         for nm in (s, "ant_" + s):
                             if nm in db_c:
